@@ -6,7 +6,8 @@ import mir
 CT = "coordinate::tuple::CoordinateTuple::"
 TUPLE_ACCESSORS = {"xy": 2, "xyz": 3, "xyzt": 4}
 SCALAR_ACCESSORS = {"x": 0, "y": 1, "z": 2, "t": 3}
-COOR_TYPES = ("coordinate::coor4d::Coor4D", "coordinate::coor3d::Coor3D", "coordinate::coor2d::Coor2D")
+COOR_TYPES = ("coordinate::coor4d::Coor4D", "coordinate::coor3d::Coor3D", "coordinate::coor2d::Coor2D",
+              "coordinate::coor32::Coor32")
 
 
 def _pointee(x, f, point):
